@@ -106,7 +106,9 @@ impl CommandParser {
                             return None;
                         }
 
-                        let rust_type = Self::type_to_string(ty);
+                        // models::User names the same type as User; `::` must not reach the output
+                        let rust_type =
+                            TypeResolver::strip_path_qualifiers(&Self::type_to_string(ty));
                         let type_structure = type_resolver.parse_type_structure(&rust_type);
                         let is_optional = self.is_optional_type(ty);
 
@@ -192,7 +194,9 @@ impl CommandParser {
     fn extract_return_type(&self, output: &ReturnType) -> String {
         match output {
             ReturnType::Default => "()".to_string(),
-            ReturnType::Type(_, ty) => Self::type_to_string(ty),
+            ReturnType::Type(_, ty) => {
+                TypeResolver::strip_path_qualifiers(&Self::type_to_string(ty))
+            }
         }
     }
 
